@@ -358,6 +358,8 @@ def r4(chk):
     chk.ob("C08.R4", W("Assorter.overstatement"), "phantom-cvr-scored-half", ok_c,
            "an unpooled phantom CVR contributes 1/2 (a non-vote) on the CVR side", node=over, rows=n)
     chk.exhaustive = True
+    aud.keeps_no_state(chk, "C08.R4", REL, ["Assorter.overstatement", "Assertion.overstatement_assorter", "Assertion.make_overstatement"],
+                       "the score of a pair is a function of the two records handed in")
     # monotonicity of B in the MVR side
     ba = chk.fn(REL, "Assertion.overstatement_assorter")
     code_b, _ = spec.term(ba, inline={"self.make_overstatement": chk.fn(REL, "Assertion.make_overstatement")})
